@@ -53,7 +53,10 @@ m = {
    "add_only": True
  },
  "engines": [
-   {"name": "A", "path": "internal/engine, internal/runner, internal/ri, internal/families", "serves_properties": ["C01","C02","C03","C04","C05","C06","C07","C08","C10","C11","C13","C15","C17"], "kind_free_text": "bounded exhaustive grammar x input exploration of the real generator and of the parsers it emits (compiled), against a reference PEG interpreter"},
+   {"name": "A", "path": "internal/engine, internal/runner, internal/ri, internal/families, internal/reader, internal/front", "serves_properties": ["C01","C02","C03","C04","C05","C06","C07","C08","C10","C11","C13","C15","C17"], "kind_free_text": "bounded exhaustive grammar x input exploration of the real generator and of the parsers it emits (compiled), against a reference PEG interpreter; independent reader of the documented syntax"},
+   {"name": "B", "path": "cmd/setmc, internal/runner/history.go", "serves_properties": ["C12","C16"], "kind_free_text": "explicit-state exploration: structural states of set.Set to a fixpoint; all operation histories up to a depth on one parser instance"},
+   {"name": "C", "path": "internal/sched, internal/conc, internal/c09h, cmd/pegmc/c09.go, cmd/pegmc/c14.go", "serves_properties": ["C09","C14"], "kind_free_text": "source instrumenter (overlay, no committed hooks) + controlled cooperative scheduler + stateless DFS with iterative preemption bounding; separate free-running -race pass"},
+   {"name": "D", "path": "cmd/pegmc/cli.go, cmd/pegmc/c18.go", "serves_properties": ["C15","C18"], "kind_free_text": "CLI configuration matrix on the real binary + syscall fault-point enumeration with strace injection"},
  ],
  "checks": checks,
  "not_applicable": na,
